@@ -2,7 +2,7 @@
 from vx.unit import Unit, E
 
 F = 'src/world/entity.rs'
-DER = 'Clone, Copy, PartialEq, Eq, Structural'
+DER = 'Clone, Copy, PartialEq, Eq, Structural, Debug'
 
 N5 = ('N5', r'\.map\(Generation\)', '.map(|x__: NonZeroI32| -> (r__: Generation) ensures r__.0 == x__, { Generation(x__) })')
 GEN_ONE_CLOSURE = ('N9', r'unwrap_or_else\(Generation::one\)', 'unwrap_or_else(|| -> (r__: Generation) ensures r__.0@ == 1, { Generation::one() })')
@@ -20,7 +20,7 @@ def build():
     u.struct(F, ['struct EntityCache'])
     u.struct(F, ['struct Allocator'])
     u.struct(F, ['struct EntitiesRes'])
-    u.struct('src/error.rs', ['struct WrongGeneration'])
+    u.struct('src/error.rs', ['struct WrongGeneration'], derive='Debug')
 
     P = 'C01 C02'
     # ---- Generation
@@ -166,6 +166,24 @@ def build():
     u.fn(F, ['impl EntitiesRes', 'fn is_alive'], ret='r', props='C02 C03',
          requires=[E('wf', 'self.alloc.wf()'), E('headroom', 'self.alloc.headroom_n(2)')],
          ensures=[E('alive_spec', 'r == self.alloc.alive_spec(e)')])
+    # ---- creation iterator and builder of the shared resource (N3: the borrowed resource is held as &mut)
+    u.struct(F, ['struct CreateIterAtomic'], rules=[('N3', r"&'a Allocator", "&'a mut Allocator")])
+    u.struct(F, ['struct EntityResBuilder'], rules=[('N3', r"&'a EntitiesRes", "&'a mut EntitiesRes")])
+    u.fn(F, ["impl<'a> Iterator for CreateIterAtomic<'a>", 'fn next'], ret='r', props='C01 C02 C17 C20',
+         impl_header="impl<'a> CreateIterAtomic<'a>", key='CreateIterAtomic::next',
+         requires=[E('wf', 'old(self).0.wf()'), E('headroom', 'old(self).0.headroom()')],
+         ensures=[E('some', 'r is Some'),
+                  E('wf', 'final(self).0.wf()', 'C01 C02'),
+                  E('handle', 'hid(r.unwrap()) == old(self).0.abs().created()', 'C01 C20'),
+                  E('state', 'final(self).0.abs() == old(self).0.abs().create_deferred()', 'C01 C02 C17 C20'),
+                  E('complete', 'old(self).0.wf_complete() ==> final(self).0.wf_complete()', 'C17')])
+    # EntityResBuilder::build(mut self) is outside Verus's subset (`mut self` receiver): not under contract
+    u.fn(F, ["impl<'a> Drop for EntityResBuilder<'a>", 'fn drop'], props='C02',
+         impl_header="impl<'a> EntityResBuilder<'a>", key='EntityResBuilder::drop',
+         requires=[E('wf', 'old(self).entities.alloc.wf()'), E('headroom', 'old(self).entities.alloc.headroom_n(2)'),
+                   E('own', '!old(self).built ==> old(self).entities.alloc.abs().current(old(self).entity)')],
+         ensures=[E('wf', 'final(self).entities.alloc.wf()', 'C01 C02'),
+                  E('state', 'final(self).entities.alloc.abs() == (if old(self).built { old(self).entities.alloc.abs() } else { old(self).entities.alloc.abs().defer_kill(old(self).entity) })')])
     # ---- entities join members (N12: trait-impl methods emitted as free functions, Self::* substituted)
     JT = [('N12', r'Self::Mask', "BitSetOr<&'a BitSet, &'a AtomicBitSet>"), ('N12', r'Self::Value', "&'a EntitiesRes"),
           ('N12', r'\(self\)', "(self_: &'a EntitiesRes)"), ('N12', r'\bself\b', 'self_')]
